@@ -54,6 +54,7 @@ var substTable = map[string]string{
 	"os.ReadFile":                "ReadFile",
 	"os.WriteFile":               "WriteFile",
 	"io/ioutil.ReadDir":          "ReadDir",
+	"os.ReadDir":                 "ReadDirEntries",
 	"io/ioutil.ReadFile":         "ReadFile",
 	"io/ioutil.WriteFile":        "WriteFile",
 	"path/filepath.Abs":          "Abs",
